@@ -296,12 +296,90 @@ Theorem C14_stable_sorter_ok : sorter_ok stable_perm.
 Proof. exact stable_perm_ok. Qed.
 Print Assumptions C14_stable_sorter_ok.
 
-(* The model's screen after render passes the decidable check [render_ok] that the
-   differential run applies to the real Vaxis screen. *)
+(* Clipping to ALL ancestors, for every window.  App.Run hands the root surface the whole terminal
+   window, so the root's window may be LARGER than the root surface (a root widget that returns
+   less than the terminal), equal to it or smaller; [win] is any chain of Window.New frames.
+   After render every screen cell is either untouched or shows buffer cell (x - ox', y - oy') of
+   SOME node of the tree placed at its offset (ox',oy' = sum of the offsets on its path), and the
+   point lies inside the window's clip and inside the rectangle of EVERY node on the path from
+   the root's child down to that node ([path] lists those rectangles): nothing a descendant
+   paints escapes any of its ancestors, however many same-size wrappers lie in between.  (The
+   root's own clip is the window it is handed: that is Surface.render's interface.) *)
+Theorem C14_render_clipped_to_all_ancestors :
+  forall (A : Type) (sorter : list Z -> list nat) (s : surface A) win (sc : screen A),
+  wf_tree s -> win <> [] -> screen_wf sc ->
+  exists ps sc', render_gen sorter win s = Some ps /\ screen_apply sc ps = Some sc' /\
+    forall x y, 0 <= x < sc_cols sc -> 0 <= y < sc_rows sc ->
+      screen_get sc' x y = screen_get sc x y \/
+      exists c path, screen_get sc' x y = Some c /\ win_clip win x y = true /\
+        paint_path s (fst (win_org win)) (snd (win_org win)) x y c path /\
+        Forall (fun r => rect_has r x y = true) path.
+Proof. intros A sorter s win sc; apply render_clipped_to_ancestors. Qed.
+Print Assumptions C14_render_clipped_to_all_ancestors.
+
+(* [justified] (model/Surface.v) is the decidable form of "there is such a path" that the
+   differential run evaluates on every painted cell of the real screen *)
+Theorem C14_justified_iff_path : forall (s : surface Z) ox oy x y v,
+  justified s ox oy x y v = true <->
+  exists path, paint_path s ox oy x y v path /\ Forall (fun r => rect_has r x y = true) path.
+Proof.
+  intros s ox oy x y v; split; [apply justified_paint_path|].
+  intros (path & Hp & Hall); eapply paint_path_justified; eassumption.
+Qed.
+Print Assumptions C14_justified_iff_path.
+
+(* Where a window can exceed its surface: the window Surface.render makes for a child is never
+   larger than the child, so only the root's window can be larger than its surface; and
+   Window.New(0,0,w,h) of a window no larger than w x h clips exactly like that window (a
+   same-size child at (0,0) gets a clip equal to its parent's everywhere BELOW the root, and a
+   strictly smaller one directly under a root that is smaller than its window). *)
+Theorem C14_child_window_within_child : forall (win : window) col row cols rows,
+  0 <= cols -> 0 <= rows ->
+  win_w (win_new win col row cols rows) <= cols /\ win_h (win_new win col row cols rows) <= rows.
+Proof. exact win_new_within. Qed.
+Print Assumptions C14_child_window_within_child.
+
+Theorem C14_same_size_child_window : forall (win : window) w h x y,
+  win <> [] -> 0 <= w -> 0 <= h ->
+  win_clip (win_new win 0 0 w h) x y =
+    win_clip win x y && in_rect (fst (win_org win)) (snd (win_org win)) w h x y /\
+  (win_w win <= w -> win_h win <= h -> win_clip (win_new win 0 0 w h) x y = win_clip win x y).
+Proof.
+  intros win w h x y Hne Hw Hh. split; [|intros; apply win_new_same_size; assumption].
+  pose proof (win_new_spec win 0 0 w h x y Hne Hw Hh) as H.
+  destruct (win_org win) as [ox oy]; cbn [fst snd]. destruct H as [_ ->].
+  now rewrite !Z.add_0_r.
+Qed.
+Print Assumptions C14_same_size_child_window.
+
+(* The model's screen after render passes the decidable checks that the differential run
+   applies to the real Vaxis screen: [render_ok2] = every cell is what [shown] prescribes AND the
+   clipping clause [clipped_ok] (every painted cell inside the window's clip and justified). *)
 Theorem C14_render_meets_spec : forall cols rows (s : surface Z), 0 <= cols -> 0 <= rows ->
-  render_ok ((cols, rows, s), render_run (cols, rows, s)) = true.
-Proof. exact render_run_ok. Qed.
+  render_ok ((cols, rows, s), render_run (cols, rows, s)) = true /\
+  render_ok2 ((cols, rows, s), render_run (cols, rows, s)) = true.
+Proof. intros cols rows s Hc Hr; split; [apply render_run_ok | apply render_run_ok2]; assumption. Qed.
 Print Assumptions C14_render_meets_spec.
+
+(* The same with the window handed to render being the terminal window narrowed by ANY sequence
+   of Window.New calls (offsets and sizes of any sign, also the "-1 = the rest" sizes): larger
+   than, equal to, smaller than or partly outside the root surface. *)
+Theorem C14_render_any_window_meets_spec : forall cols rows frames (s : surface Z), 0 <= cols -> 0 <= rows ->
+  renderwin_ok ((cols, rows, frames, s), renderwin_run (cols, rows, frames, s)) = true.
+Proof. exact renderwin_run_ok. Qed.
+Print Assumptions C14_render_any_window_meets_spec.
+
+(* non-vacuity / the class: a 4x2 root in a 6x4 terminal (its window is larger than the root)
+   wrapping a same-size child at (0,0) whose own child overhangs it by one row and one column:
+   only the grandchild's cell inside BOTH the child and the window is painted; the same tree in a
+   sub-window at (1,1) of size 3x2 (smaller than the root) *)
+Example C14_example_wrapper :
+  let t := Surf 4 2 [1;2;3;4;5;6;7;8]
+             [(0, 0, 0, Surf 4 2 [21;22;23;24;25;26;27;28] [(3, 1, 0, Surf 2 2 [11;12;13;14] [])])] in
+  wf_tree t /\
+  render_run (6, 4, t) = (0, [[21;22;23;24;0;0]; [25;26;27;11;0;0]; [0;0;0;0;0;0]; [0;0;0;0;0;0]]) /\
+  renderwin_run (6, 4, [(1, 1, 3, 2)], t) = (0, [[0;0;0;0;0;0]; [0;21;22;23;0;0]; [0;25;26;27;0;0]; [0;0;0;0;0;0]]).
+Proof. cbv zeta. split; [apply tree_wf_b_sound; vm_compute; reflexivity|]. split; vm_compute; reflexivity. Qed.
 
 (* non-vacuity: a 3x1 parent with two overlapping children; the higher z wins at x = 1, the
    child hanging over the right edge is clipped to the parent's window *)
